@@ -26,7 +26,7 @@ NOT_DECIDED = ["behaviour at an actual crash point (process kill) - only the ord
                "that the back-end libraries (PyTables, netCDF4, xdrfile) persist data on flush/sync",
                "equality of file content between k calls and one call (run-time)"]
 ASSUMPTIONS = ["PyTables EArray.append and netCDF variable assignment validate the per-frame shape themselves (atom count) before storing"]
-FLOORS = {"C19-R1": 11, "C19-R2": 9, "C19-R3": 3, "C19-R4": 4, "C19-R5": 6, "C19-R6": 6, "C19-R7": 4}
+FLOORS = {"C19-R1": 11, "C19-R2": 9, "C19-R3": 3, "C19-R4": 4, "C19-R5": 6, "C19-R6": 6, "C19-R7": 24}
 
 WRITERS = ["h5", "nc", "xtc", "trr", "dcd", "dtr", "mdcrd", "xyz", "lammpstrj", "gro", "pdb", "lh5", "rst7", "ncrst"]
 IO_ERRORS = ("IOError", "OSError", "RuntimeError", "MemoryError", "NotImplementedError", "ImportError")
@@ -635,111 +635,69 @@ def _r6(ctx):
 # ---------------------------------------------------------------------------------------------------
 # R7: inside the frame loop of a streaming write(), per-frame data is used per frame
 # ---------------------------------------------------------------------------------------------------
-_FRAME_PARAMS = {"xyz", "coordinates", "positions", "cell_lengths", "cell_angles", "unitcell_vectors", "unitcell_lengths", "unitcell_angles", "time", "box"}
-_ARRAY_KEEP = {"ensure_type", "in_units_of", "np.asarray", "np.array", "np.ascontiguousarray", "np.require", "cast_indices", "np.empty_like", "np.zeros_like", "np.ones_like", "np.full_like"}
+
+
+# fields of a text format that no reader of it uses (so a difference there is not a difference between the files as trajectories)
+_IGNORED_AFTER = {"lammpstrj": "ITEM: TIMESTEP"}      # the step counter of a LAMMPS dump restarts with every write() call; loaders number frames by position
 
 
 def _r7(ctx):
+    """write() of each streaming text writer evaluated (sa/writers.py) on symbolic frames: the text put into the file by one call with all frames is, piece by
+    piece (literal text, format specs, values), the text put there by the same frames handed over in several calls - with and without cell / time."""
+    from .. import writers as W, textio as T
+    from ..tensym import Raised
+    from ..pysym import Unsupported as PUnsupported
+
+    def comparable(key, pieces):
+        ls, tail = T.lines(pieces)
+        if tail:
+            ls.append(tail)
+        mark = _IGNORED_AFTER.get(key)
+        out, skip = [], False
+        for l_ in ls:
+            if skip:
+                skip = False
+                out.append(["<ignored>"])
+                continue
+            out.append(l_)
+            if mark and len(l_) == 1 and isinstance(l_[0], str) and l_[0].strip() == mark:
+                skip = True
+        return out
+    splits = [(2, [(0, 1), (1, 2)]), (3, [(0, 1), (1, 3)]), (3, [(0, 2), (2, 3)])]
+    if ctx.tier == "thorough":
+        splits += [(3, [(0, 1), (1, 2), (2, 3)]), (4, [(0, 1), (1, 4)]), (4, [(0, 2), (2, 4)]), (4, [(0, 3), (3, 4)]), (4, [(0, 1), (1, 3), (3, 4)])]
     for key in ("gro", "mdcrd", "xyz", "lammpstrj"):
         rel, cls = F.rel_cls(key)
         fn = F.method(ctx, key, "write")
         q = cls + ".write"
-        fparams = [p for p in params(fn) if p in _FRAME_PARAMS]
-        loops = []
-        for n in walk_no_nested(fn):
-            if isinstance(n, ast.For) and isinstance(n.target, ast.Name) and isinstance(n.iter, ast.Call) and call_name(n.iter) == "range":
-                t = src(n.iter)
-                if any(("%s.shape[0]" % p) in t or ("len(%s)" % p) in t for p in fparams) or "n_frames" in t:
-                    loops.append(n)
-        if not loops:
-            ctx.undecided("C19-R7", fn, rel, q, "frame loop", "no `for i in range(<number of frames>)` loop found in write()")
-            continue
-        for lp in loops:
-            iv = lp.target.id
-            # classify names bound before the loop: ARRAY (still one entry per frame) or SUMMARY (reduced over frames)
-            kind = {p: "ARRAY" for p in fparams}
-            for st in walk_no_nested(fn):
-                if not isinstance(st, ast.Assign) or st.lineno >= lp.lineno or not isinstance(st.targets[0], ast.Name):
+        variants = {"xyz": [dict(cell=False, time=False)], "mdcrd": [dict(cell=True, time=False), dict(cell=False, time=False)],
+                    "lammpstrj": [dict(cell=True, time=False), dict(cell=True, ortho=True, time=False), dict(cell=True, ortho="mixed", time=False)],
+                    "gro": [dict(cell=True, time=True), dict(cell=False, time=False), dict(cell=True, time=False)]}[key]
+        for var in variants:
+            vdesc = ", ".join("%s=%s" % kv for kv in sorted(var.items()))
+            for n, part in splits:
+                pdesc = "%d frames in calls of %s" % (n, [b_ - a_ for a_, b_ in part])
+                desc = "%s (%s): the same text as one call" % (pdesc, vdesc)
+                try:
+                    root = W.new_root()
+                    world = W.World(n, **var)
+                    one = W.written(ctx, key, world, [(0, n)], root)
+                    many = W.written(ctx, key, world, part, root)
+                except Raised as e:
+                    ctx.violated("C19-R7", fn, rel, q, desc, "the writer refuses these frames: %s" % (e.exc or e))
                     continue
-                tgt = st.targets[0].id
-                k = _data_kind(st.value, kind)
-                if k is not None:
-                    kind[tgt] = k
-                elif tgt in kind and tgt not in fparams:
-                    del kind[tgt]
-            bad = []
-            n_uses = 0
-            for n in ast.walk(lp):
-                if isinstance(n, ast.Name) and isinstance(n.ctx, ast.Load) and n.id in kind and n.id != iv:
-                    par = _parent_chain(lp, n)
-                    n_uses += 1
-                    if kind[n.id] == "SUMMARY":
-                        bad.append((n, "`%s` was reduced over the frames of this call before the loop" % n.id))
-                        continue
-                    # ARRAY: must be subscripted by the loop variable, or be used for shape / len / is-None only
-                    ok = False
-                    for anc in par:
-                        if isinstance(anc, ast.Subscript) and anc.value is n and any(isinstance(x, ast.Name) and x.id == iv for x in ast.walk(anc.slice)):
-                            ok = True
-                        if isinstance(anc, ast.Attribute) and anc.value is n and anc.attr in ("shape", "ndim", "dtype", "size"):
-                            ok = True
-                        if isinstance(anc, ast.Call) and call_name(anc) == "len" and anc.args and anc.args[0] is n:
-                            ok = True
-                        if isinstance(anc, ast.Compare) and anc.left is n and any(isinstance(c, ast.Constant) and c.value is None for c in anc.comparators):
-                            ok = True
-                    if not ok:
-                        bad.append((n, "`%s` holds one entry per frame but is used without the loop index `%s`" % (n.id, iv)))
-            if n_uses == 0:
-                ctx.undecided("C19-R7", lp, rel, q, "frame loop at line %d" % lp.lineno, "no per-frame data is used in the loop")
-                continue
-            ctx.decide(not bad, "C19-R7", bad[0][0] if bad else lp, rel, q, "frame loop at line %d: %d uses of per-frame data, all indexed by `%s`" % (lp.lineno, n_uses, iv), "",
-                       "%s: what is written for frame %s then depends on the other frames of the same write() call, so writing the frames in several calls gives a different file than writing them at once"
-                       % ("; ".join(w for _, w in bad[:2]), iv))
-
-
-def _data_kind(value, kind):
-    """ARRAY when value keeps one entry per frame of an ARRAY name, SUMMARY when it reduces one, None when it does not depend on frame data"""
-    names = [n for n in ast.walk(value) if isinstance(n, ast.Name) and n.id in kind]
-    if not names:
-        return None
-    # shape / len / is-None uses do not read the data
-    datareads = []
-    for n in names:
-        meta = False
-        for anc in ast.walk(value):
-            if isinstance(anc, ast.Attribute) and anc.value is n and anc.attr in ("shape", "ndim", "dtype", "size"):
-                meta = True
-            if isinstance(anc, ast.Call) and call_name(anc) == "len" and anc.args and anc.args[0] is n:
-                meta = True
-            if isinstance(anc, ast.Compare) and anc.left is n and any(isinstance(c, ast.Constant) and c.value is None for c in anc.comparators):
-                meta = True
-        if not meta:
-            datareads.append(n)
-    if not datareads:
-        return None
-    if any(kind[n.id] == "SUMMARY" for n in datareads):
-        return "SUMMARY"
-    if isinstance(value, ast.Name):
-        return kind[value.id]
-    if isinstance(value, ast.Call) and (call_name(value) in _ARRAY_KEEP or (call_name(value) or "").split(".")[-1] in ("astype", "copy")) and value.args and isinstance(value.args[0], ast.Name) and value.args[0].id in kind:
-        return "ARRAY"
-    if isinstance(value, ast.BinOp) and any(isinstance(s_, ast.Name) and s_.id in kind for s_ in (value.left, value.right)):
-        return "ARRAY"          # element-wise arithmetic keeps the frame axis
-    if isinstance(value, ast.IfExp):
-        ks = [_data_kind(value.body, kind), _data_kind(value.orelse, kind)]
-        return "SUMMARY" if "SUMMARY" in ks else ("ARRAY" if "ARRAY" in ks else None)
-    return "SUMMARY"
-
-
-def _parent_chain(root, node):
-    """ancestors of node inside root (nearest first)"""
-    parents = {}
-    for p in ast.walk(root):
-        for c in ast.iter_child_nodes(p):
-            parents[id(c)] = p
-    out = []
-    cur = node
-    while id(cur) in parents:
-        cur = parents[id(cur)]
-        out.append(cur)
-    return out
+                except PUnsupported as e:
+                    ctx.undecided("C19-R7", fn, rel, q, desc, "not evaluable: %s" % e)
+                    continue
+                l1, l2 = comparable(key, one), comparable(key, many)
+                bad = None
+                if not one:
+                    bad = "nothing is written"
+                elif len(l1) != len(l2):
+                    bad = "%d lines at once, %d lines in several calls" % (len(l1), len(l2))
+                else:
+                    for k_, (x_, y_) in enumerate(zip(l1, l2)):
+                        if not T.same_pieces(x_, y_):
+                            bad = "line %d is `%s` when written at once and `%s` when written in several calls" % (k_ + 1, T.show(x_, 90), T.show(y_, 90))
+                            break
+                ctx.decide(bad is None, "C19-R7", fn, rel, q, desc, "%d lines" % len(l1), "%s: what is written for a frame depends on the other frames of the same write() call" % bad)
